@@ -28,7 +28,7 @@ PRIMS = {"signed char": (0, 1), "short": (0, 2), "int": (0, 4), "long": (0, 8), 
          "char": (4, 1), "wchar_t": (4, 4), "char16_t": (4, 2), "char32_t": (4, 4),
          "void *": (5, 8), "char *": (5, 8), "int **": (5, 8), "fnptr_t": (5, 8), "double *": (5, 8)}
 INTS = [k for k, v in PRIMS.items() if v[0] in (0, 1)]
-ERR_CODE = {"TypeError": 1, "ValueError": 2, "IndexError": 3, "KeyError": 4, "OverflowError": 5}
+ERR_CODE = {"TypeError": 1, "ValueError": 2, "IndexError": 3, "KeyError": 4, "OverflowError": 5, "MemoryError": 8}
 
 prim, arr, agg, fld = c01.prim, c01.arr, c01.agg, c01.fld
 
@@ -83,7 +83,8 @@ def rand_agg(rng, nm, depth, pack=0, inline=False, flex_ok=True):
                                                           "long", "void *"])), -1)))
         elif r < 0.42 and depth < 3:
             # a var-sized struct as last member (CT_WITH_VAR_ARRAY propagates)
-            inner = rand_agg(rng, nm, depth + 1, 0, rng.random() < 0.5, flex_ok=True)
+            inl = rng.random() < 0.5
+            inner = rand_agg(rng, nm, depth + 1, pack if inl else 0, inl, flex_ok=True)   # in-place: inherits the packing
             if c01.has_flex(inner) and not inner["u"]:
                 fields.append(fld(nm(), inner))
     return agg(union, pack, fields, inline)
@@ -150,7 +151,7 @@ def gen_init(rng, t, errp, depth=0):
     r = rng.random()
     if r < errp:
         return dict(rng.choice([dict(i=3), dict(n=1), dict(b="00"), dict(cd="", same=False, T=""), dict(f=1.0)]))
-    if r < 0.08 and not c01.has_flex(t):
+    if r < 0.08 and not c01.has_flex(t) and not t["inline"]:
         size_hint = 64
         return dict(cd="".join("%02x" % rng.randint(0, 255) for _ in range(size_hint)), same=True,
                     T="@%d" % [id(n) for n in NODES].index(id(t)), fit=True)
@@ -391,10 +392,12 @@ def prepare(case, idx):
         flexlen = None
         if var and top["fields"][-1]["t"]["k"] == "arr" and top["fields"][-1]["t"]["n"] < 0:
             flexlen = top["fields"][-1]["name"]
+        if "n" in case["init"]:
+            assign = None            # ffi.new(T, None) means "no initializer"; p[0] = None is not an assignment of it
         return dict(decls=decls, tags=tags, init=case["init"], newT=newT, isptr=True, assign=assign, flexlen=flexlen)
     ln = case["len"]
     newT = "%s[%s]" % (tstr, "" if ln < 0 else ln)
-    assign = None if ln < 0 else dict(form="literal", T="%s(*)[%d]" % (tstr, ln))
+    assign = None if ln < 0 or "n" in case["init"] else dict(form="literal", T="%s(*)[%d]" % (tstr, ln))
     return dict(decls=decls, tags=tags, init=case["init"], newT=newT, isptr=False, assign=assign)
 
 
@@ -467,8 +470,8 @@ def evaluate(ctx, cases, asan=False):
             if asg and "error" in asg:
                 problems.append("ffi.new(T, init) succeeds, assignment of the same initializer raises " + asg["error"])
             want = flex_request(c)
-            if want is not None and new.get("flexlen") is not None and new["flexlen"] != want:
-                problems.append("flexible array initialised with %d items reads back with length %d" % (want, new["flexlen"]))
+            if want is not None and new.get("flexlen") is not None and new["flexlen"] < want:
+                problems.append("flexible array initialised with %d items reads back with only %d" % (want, new["flexlen"]))
             if not has_content(c["init"]) and set(new["bytes"]) - {"0"}:
                 problems.append("no value written, memory not zero: " + new["bytes"])
         elif asg and "bytes" in asg and e["assign"]["form"] == "literal":
@@ -488,8 +491,6 @@ def evaluate(ctx, cases, asan=False):
             do_assign = True
             if e["assign"]["form"] == "cast":
                 asize = len(new["bytes"]) // 2
-            elif c["form"] == "ptr" and top["k"] == "prim" and PRIMS[top["c"]][0] == 4:
-                asize = 2 * lay.size(target)       # direct_newp: room for a NUL after a single character
             else:
                 asize = lay.size(target)
         coq_cases.append("(C20Cons %s %s %d %s %s %s" % (head, lay.wval(c["init"], target), asize,
